@@ -134,6 +134,16 @@ func (vc *FnVC) libModel(in *ssa.Call, callee *ssa.Function) bool {
 			vc.modelUsed(name)
 			return true
 		}
+	case name == "github.com/ethereum/go-ethereum/crypto.Keccak256":
+		// the hash value is abstract; the result is a fresh 32-byte slice, inputs are only read
+		arr := vc.newAllocRef("keccak$" + mangle(in.Name()))
+		c, s := vc.elemComp(types.Typ[types.Uint8])
+		f := vc.freshConst("hasharr", "(Array Int Int)")
+		vc.fact(fmt.Sprintf("(forall ((i Int)) (! (and (<= 0 (select %s i)) (<= (select %s i) 255)) :pattern ((select %s i))))", f, f, f))
+		vc.heapSet(c, s, fmt.Sprintf("(store %s %s %s)", vc.heapGet(c, s), arr, f))
+		vc.setRes(in, Term{S: fmt.Sprintf("(mkSlice %s 0 32 32)", arr), Sort: "Slice"})
+		vc.modelUsed(name)
+		return true
 	case name == "bytes.Count":
 		// only the single-byte separator form is modelled exactly
 		s, sep := vc.val(args[0]), vc.val(args[1])
@@ -369,6 +379,39 @@ func (vc *FnVC) bigMethod(in *ssa.Call, m string, args []ssa.Value) bool {
 		vc.fact(fmt.Sprintf("(and (>= %s (- 9223372036854775808)) (<= %s 9223372036854775807))", r, r))
 		vc.fact(fmt.Sprintf("(=> (and (>= %s (- 9223372036854775808)) (<= %s 9223372036854775807)) (= %s %s))", x, x, r, x))
 		vc.setRes(in, intT(r))
+	case "Bytes":
+		// big-endian bytes of |x|: fresh slice, minimal length; contents abstract (bebytes)
+		x := get(0)
+		ax := fmt.Sprintf("(ite (>= %s 0) %s (- %s))", x, x, x)
+		arr := vc.newAllocRef("bytes$" + mangle(in.Name()))
+		ln := vc.freshConst("blen", "Int")
+		vc.fact(fmt.Sprintf("(and (>= %s 0) (= (= %s 0) (= %s 0)))", ln, ln, x))
+		for _, k := range []int{1, 8, 20, 32, 64} {
+			vc.fact(fmt.Sprintf("(= (<= %s %d) (< %s %s))", ln, k, ax, pow2(8*k).String()))
+		}
+		c, s := vc.elemComp(types.Typ[types.Uint8])
+		vc.decl("bebytes", "(declare-fun bebytes ((Array Int Int) Int Int) Int)")
+		cur := vc.heapGet(c, s)
+		f := vc.freshConst("bytesarr", "(Array Int Int)")
+		vc.fact(fmt.Sprintf("(forall ((i Int)) (! (and (<= 0 (select %s i)) (<= (select %s i) 255)) :pattern ((select %s i))))", f, f, f))
+		vc.fact(fmt.Sprintf("(= (bebytes %s 0 %s) %s)", f, ln, ax))
+		vc.heapSet(c, s, fmt.Sprintf("(store %s %s %s)", cur, arr, f))
+		vc.setRes(in, Term{S: fmt.Sprintf("(mkSlice %s 0 %s %s)", arr, ln, ln), Sort: "Slice"})
+	case "SetBytes":
+		// z = big-endian value of the byte slice (abstract function bebytes with the facts
+		// the code base relies on: non-negative, below 256^len, a single byte is itself)
+		b := vc.val(args[1])
+		c, s := vc.elemComp(types.Typ[types.Uint8])
+		vc.decl("bebytes", "(declare-fun bebytes ((Array Int Int) Int Int) Int)")
+		v := vc.defineNamed("bev", "Int", fmt.Sprintf("(bebytes (select %s (s.arr %s)) (s.off %s) (s.len %s))", vc.heapGet(c, s), b.S, b.S, b.S))
+		vc.fact(fmt.Sprintf("(>= %s 0)", v))
+		vc.fact(fmt.Sprintf("(=> (= (s.len %s) 0) (= %s 0))", b.S, v))
+		vc.fact(fmt.Sprintf("(=> (= (s.len %s) 1) (= %s (select (select %s (s.arr %s)) (s.off %s))))", b.S, v, vc.heapGet(c, s), b.S, b.S))
+		for _, k := range []int{1, 8, 20, 32, 64} {
+			vc.fact(fmt.Sprintf("(=> (<= (s.len %s) %d) (< %s %s))", b.S, k, v, pow2(8*k).String()))
+		}
+		set(v)
+		vc.setRes(in, intT(z))
 	case "BitLen":
 		r := vc.freshConst("blen", "Int")
 		x := get(0)
